@@ -230,6 +230,10 @@ func (mbs *metadataPartStorage) createRangeReader(ctx context.Context, tx databa
 		globalEnd = *endByte
 	}
 	if globalStart >= globalEnd {
+		if startByte == nil && endByte == nil {
+			// Whole-object read of an empty object: nothing to stream.
+			return io.NopCloser(bytes.NewReader(nil)), nil
+		}
 		return nil, storage.ErrInvalidRange
 	}
 
